@@ -1,3 +1,5 @@
+//go:build go1.21
+
 // Package vsched is a cooperative scheduler, schedule recorder and
 // happens-before race monitor for instrumented gedcom code. It is overlaid
 // into the repository module at check time (nothing is committed to /repo).
@@ -60,8 +62,9 @@ type thread struct {
 	started bool
 	done    bool
 	vc      []uint32
-	sleptAt int64 // visible-op counter when it last yielded in Sleep
-	sleeps  int   // consecutive sleeps without visible progress by others
+	sleptAt int64 // progress counter when it last yielded in Sleep
+	spinning bool // it slept twice with no progress by anybody in between: a no-op poll iteration
+	lastSleepProgress int64
 	selChoice int
 	rendezvous bool // must park in After hook
 	panicVal interface{}
@@ -290,7 +293,7 @@ func (s *sched) dispatch(from *thread) int {
 		drv := s.threads[0]
 		anySleeper := false
 		for _, t := range s.threads {
-			if !t.done && t.started && t.pending.kind == opSleep {
+			if !t.done && t.started && t.pending.kind == opSleep && t.spinning {
 				anySleeper = true
 			}
 		}
@@ -328,7 +331,8 @@ func (s *sched) dispatch(from *thread) int {
 	s.out.Points = append(s.out.Points, p)
 	s.note(kindName[next.pending.kind], next.id, uint64(selCase+1))
 	next.selChoice = selCase
-	if next.pending.kind != opSleep {
+	// progress: anything but a sleep or a select falling through to its default arm
+	if next.pending.kind != opSleep && !(next.pending.kind == opSelect && selCase == len(next.pending.cases)) {
 		s.visible++
 	}
 	s.lastRR = next.id
@@ -433,8 +437,10 @@ func (s *sched) opEnabled(t *thread) (bool, []int) {
 	case opStart, opSync, opClose, opResume:
 		return true, nil
 	case opSleep:
-		// a sleeper is re-enabled only after some other visible operation happened
-		return s.visible > t.sleptAt, nil
+		// a sleep is a yield. A thread that slept, polled and sleeps again with no
+		// progress by anybody in between (itself included) performed a
+		// state-preserving iteration; it is re-enabled only after progress.
+		return !t.spinning || s.visible > t.sleptAt, nil
 	case opSend:
 		return s.sendReady(o.obj, t), nil
 	case opRecv:
@@ -507,6 +513,8 @@ func Sleep(d interface{}) {
 		return
 	}
 	t := s.cur
+	t.spinning = t.lastSleepProgress == s.visible+1
+	t.lastSleepProgress = s.visible + 1
 	t.sleptAt = s.visible
 	s.point(op{kind: opSleep, what: "sleep"})
 }
